@@ -314,14 +314,26 @@ class Parser:
             raise self._parse_error('FPy `hexfloat` expects a string', e)
         return Hexnum(func, arg.val, loc)
 
+    def _parse_integer_argument(self, node: ast.expr) -> Expr:
+        """An argument of `rational` / `digits`, which take integer literals.
+        `-0` is the integer 0 here: a negated zero is folded into a signed
+        literal for the sake of values, and an integer has no signed zero."""
+        if (
+            isinstance(node, ast.UnaryOp) and isinstance(node.op, ast.USub)
+            and isinstance(node.operand, ast.Constant)
+            and type(node.operand.value) is int and node.operand.value == 0
+        ):
+            return Integer(0, self._parse_location(node))
+        return self._parse_expr(node)
+
     def _parse_rational(self, e: ast.Call, func: FuncSymbol):
         loc = self._parse_location(e)
         if len(e.args) != 2:
             raise self._parse_error('FPy `rational` expects two arguments', e)
-        p = self._parse_expr(e.args[0])
+        p = self._parse_integer_argument(e.args[0])
         if not isinstance(p, Integer):
             raise self._parse_error('FPy `rational` expects an integer as first argument', e)
-        q = self._parse_expr(e.args[1])
+        q = self._parse_integer_argument(e.args[1])
         if not isinstance(q, Integer):
             raise self._parse_error('FPy `rational` expects an integer as second argument', e)
         return Rational(func, p.val, q.val, loc)
@@ -330,13 +342,13 @@ class Parser:
         loc = self._parse_location(e)
         if len(e.args) != 3:
             raise self._parse_error('FPy `digits` expects three arguments', e)
-        m_e = self._parse_expr(e.args[0])
+        m_e = self._parse_integer_argument(e.args[0])
         if not isinstance(m_e, Integer):
             raise self._parse_error('FPy `digits` expects an integer as first argument', e)
-        e_e = self._parse_expr(e.args[1])
+        e_e = self._parse_integer_argument(e.args[1])
         if not isinstance(e_e, Integer):
             raise self._parse_error('FPy `digits` expects an integer as second argument', e)
-        b_e = self._parse_expr(e.args[2])
+        b_e = self._parse_integer_argument(e.args[2])
         if not isinstance(b_e, Integer):
             raise self._parse_error('FPy `digits` expects an integer as third argument', e)
         return Digits(func, m_e.val, e_e.val, b_e.val, loc)
